@@ -11,12 +11,13 @@ def run(tier):
     else:
         cfgs = vfsrun.cfgs([1, 2, 3, 4, 5, 6, 7, 8], [0, 2, 3], range(8))
         depth = 5
+    deep = (vfsrun.cfgs([5], [0, 3], range(8)), 6) if tier == 'quick' else (cfgs, 7)
     return vfsrun.hist_check(
         PROP, tier, cfgs, depth,
         rule="every operation history up to the depth bound over records of framed size {1,L-1,L,L+1,L+2}, multi-byte (2-byte UTF-8) records of 3 and 5 bytes, a record with an "
              "embedded LF, day changes and restarts, for each size limit L and option set; after every operation each file the sink wrote (rotated files decompressed) is "
              "located in the written stream and must be <= L bytes or hold exactly one record; states = distinct (directory contents, day, records written)",
-        assumptions=vfsrun.COMMON_ASSUMPTIONS + ["file-count limit 1 (rotation disabled) is outside the property"])
+        deep=deep, assumptions=vfsrun.COMMON_ASSUMPTIONS + ["file-count limit 1 (rotation disabled) is outside the property"])
 
 
 def replay(path):
